@@ -703,6 +703,183 @@ def corners(out, only_system=None, only_integ=None):
     if os.path.exists(cur): os.remove(cur)
 
 
+# --------------------------------------------------------------------------------------------- history versus fresh object
+def fresh_like(sim, cfg, safe, keep):
+    """a FRESH simulation holding exactly the (synchronized) particles, time and settings of sim"""
+    f = rebound.Simulation()
+    f.G = sim.G; f.softening = sim.softening
+    for i in range(sim.N):
+        p = sim.particles[i]
+        f.add(m=p.m, x=p.x, y=p.y, z=p.z, vx=p.vx, vy=p.vy, vz=p.vz, r=p.r)
+    f.N_active = sim.N_active; f.testparticle_type = sim.testparticle_type
+    f.integrator = cfg["integ"]; f.t = sim.t; f.dt = sim.dt
+    if cfg["integ"] == "whfast":
+        w, v = f.ri_whfast, sim.ri_whfast
+        w.kernel = v.kernel; w.coordinates = v.coordinates; w.corrector = v.corrector; w.corrector2 = v.corrector2
+        w.safe_mode = safe; w.keep_unsynchronized = keep
+    elif cfg["integ"] == "saba":
+        f.ri_saba.type = sim.ri_saba.type; f.ri_saba.safe_mode = safe; f.ri_saba.keep_unsynchronized = keep
+    elif cfg["integ"] == "mercurius":
+        f.ri_mercurius.safe_mode = safe; f.ri_mercurius.r_crit_hill = sim.ri_mercurius.r_crit_hill
+    return f
+
+
+def handover(sim, cfg):
+    """the documented protocol with safe_mode off: synchronize, then ask for a recalculation of the coordinates"""
+    sim.synchronize()
+    if cfg["integ"] in ("whfast", "saba"): sim.ri_whfast.recalculate_coordinates_this_timestep = 1
+    if cfg["integ"] == "mercurius": sim.ri_mercurius.recalculate_coordinates_this_timestep = 1
+
+
+def set_mode(sim, cfg, safe=None, keep=None):
+    tgt = {"whfast": sim.ri_whfast, "saba": sim.ri_saba, "mercurius": sim.ri_mercurius}[cfg["integ"]]
+    if safe is not None: tgt.safe_mode = safe
+    if keep is not None and cfg["integ"] != "mercurius": tgt.keep_unsynchronized = keep
+
+
+def histories():
+    H = []
+
+    def toggle_safe(sim, cfg):
+        sim.steps(3); sim.synchronize(); set_mode(sim, cfg, safe=1); sim.steps(2); set_mode(sim, cfg, safe=0); sim.steps(2)
+        sim.synchronize(); set_mode(sim, cfg, safe=1); sim.steps(1); set_mode(sim, cfg, safe=0); sim.steps(1)
+    H.append(("safe_mode toggled back and forth (synchronized before switching it on)", toggle_safe, ("whfast", "saba", "mercurius")))
+
+    def toggle_keep(sim, cfg):
+        sim.steps(2); sim.synchronize(); set_mode(sim, cfg, keep=1); sim.steps(3); sim.synchronize(); sim.energy(); sim.steps(1)
+        set_mode(sim, cfg, keep=0); sim.synchronize(); sim.steps(2)
+    H.append(("keep_unsynchronized switched on and off again", toggle_keep, ("whfast", "saba")))
+
+    def corrector_change(sim, cfg):
+        sim.ri_whfast.corrector = 3; sim.steps(3); sim.synchronize()
+        sim.ri_whfast.corrector = 11; sim.ri_whfast.recalculate_coordinates_this_timestep = 1; sim.steps(2); sim.synchronize()
+        sim.ri_whfast.corrector = cfg.get("corrector", 0)
+    H.append(("corrector order changed between runs", corrector_change, ("whfast",)))
+
+    def remove_add(sim, cfg):
+        sim.steps(3); sim.synchronize()
+        sim.remove(sim.N - 1)
+        sim.add(m=3e-4, a=2.9, e=0.05, f=0.3, primary=sim.particles[0])
+    H.append(("synchronized remove + add leaving N unchanged", remove_add, ("whfast", "saba", "mercurius")))
+
+    def remove_add_middle(sim, cfg):
+        sim.steps(2); sim.synchronize()
+        sim.remove(1)
+        sim.add(m=2e-4, a=0.7, e=0.02, f=2.0, primary=sim.particles[0])
+    H.append(("synchronized remove of the first planet + add (order of the others shifts, N unchanged)", remove_add_middle, ("whfast", "saba", "mercurius")))
+
+    def dt_change(sim, cfg):
+        sim.steps(3); sim.synchronize(); sim.dt = sim.dt * 0.5; handover(sim, cfg); sim.steps(2); sim.synchronize(); sim.dt = -sim.dt
+    H.append(("dt halved, then reversed, between synchronized runs", dt_change, ("whfast", "saba", "mercurius")))
+
+    def switch_integrator(sim, cfg):
+        sim.steps(3); sim.synchronize()
+        sim.integrator = "ias15"; sim.step(); sim.integrator = "leapfrog"; sim.step()
+        sim.integrator = cfg["integ"]
+        if cfg["integ"] == "whfast":
+            sim.ri_whfast.corrector = cfg.get("corrector", 0)
+        if cfg["integ"] == "saba": sim.ri_saba.type = cfg.get("type", 0)
+        set_mode(sim, cfg, safe=0, keep=0)
+    H.append(("integrator switched to IAS15 and leapfrog and back", switch_integrator, ("whfast", "saba", "mercurius")))
+
+    def mass_G_change(sim, cfg):
+        sim.steps(2); sim.synchronize(); sim.particles[1].m *= 2.0; sim.G = 1.5; sim.softening = 1e-3
+    H.append(("mass of a planet, G and softening changed after a synchronize", mass_G_change, ("whfast", "saba", "mercurius")))
+
+    def save_restore(sim, cfg):
+        sim.steps(3)
+    H.append(("(plain run)", save_restore, ("whfast", "saba", "mercurius")))
+    return H
+
+
+def history_case(name, hist, cfg, nsteps=4):
+    """history object (safe_mode 0, protocol respected at the hand-over) versus fresh object: bit for bit"""
+    sim = make(dict(cfg, safe=0, keep=0))
+    hist(sim, cfg)
+    handover(sim, cfg)
+    f = fresh_like(sim, cfg, 0, 0)
+    if not same(pstate(sim), pstate(f)): return "the fresh object could not be given the same state"
+    sim.steps(nsteps); sim.synchronize(); f.steps(nsteps); f.synchronize()
+    if not same(pstate(sim), pstate(f)) or bits(sim.t) != bits(f.t):
+        err = maxdiff(pstate(f), pstate(sim), scales(cfg, pstate(f)))
+        return "after the hand-over the object with history and the fresh object differ (%.3g scaled) over %d steps" % (err, nsteps)
+    # same history in safe mode throughout: no protocol needed at all
+    sim = make(dict(cfg, safe=1, keep=0))
+    try:
+        hist_safe = hist
+        hist_safe(sim, dict(cfg))
+    except Exception as e:
+        return None
+    set_mode(sim, cfg, safe=1, keep=0)
+    sim.synchronize()
+    f = fresh_like(sim, cfg, 1, 0)
+    sim.steps(nsteps); f.steps(nsteps)
+    if not same(pstate(sim), pstate(f)) or bits(sim.t) != bits(f.t):
+        err = maxdiff(pstate(f), pstate(sim), scales(cfg, pstate(f)))
+        return "in safe mode the object with history and the fresh object differ (%.3g scaled) over %d steps" % (err, nsteps)
+    return None
+
+
+def copy_case(cfg, how):
+    """a copy / a saved-and-restored object taken while UNSYNCHRONIZED continues bit for bit like the original, and within
+    rounding like a fresh object holding the synchronized state"""
+    for keep in ((0, 1) if cfg["integ"] in ("whfast", "saba") else (0,)):
+        sim = make(dict(cfg, safe=0, keep=keep)); sim.steps(3)
+        if how == "copy":
+            c = sim.copy()
+        else:
+            fn = os.path.join(TMP, "h%d.bin" % os.getpid())
+            sim.save_to_file(fn, delete_file=True); c = rebound.Simulation(fn); os.remove(fn)
+        s2 = make(dict(cfg, safe=0, keep=keep)); s2.steps(3); s2.synchronize()
+        f = fresh_like(s2, cfg, 0, keep)
+        sim.steps(4); sim.synchronize(); c.steps(4); c.synchronize(); f.steps(4); f.synchronize()
+        if not same(pstate(sim), pstate(c)) or bits(sim.t) != bits(c.t): return "%s taken while unsynchronized (keep_unsynchronized=%d) does not continue bit for bit" % (how, keep)
+        err = maxdiff(pstate(f), pstate(c), scales(cfg, pstate(f)))
+        tol = 2000 * EPS * 7 * (1.0 + 1.5 * abs(cfg["dt"]) * 7) * (10 if cfg.get("corrector", 0) >= 11 else 1)
+        if err > tol: return "%s taken while unsynchronized differs from a fresh object holding the synchronized state by %.3g (tolerance %.3g)" % (how, err, tol)
+    return None
+
+
+def history_main(out, seed):
+    import signal
+    rng = random.Random(seed * 31 + 5)
+    rep = {"evaluations": 0, "keys": [], "fails": [], "stats": {}}
+    cur = out + ".cur"
+    def onalarm(sig, frm): raise TimeoutError("hang")
+    signal.signal(signal.SIGALRM, onalarm)
+    base = {"whfast": [{"integ": "whfast"}, {"integ": "whfast", "corrector": 5}, {"integ": "whfast", "coordinates": 1}, {"integ": "whfast", "kernel": 2}],
+            "saba": [{"integ": "saba", "type": 0x6}, {"integ": "saba", "type": 0x101}], "mercurius": [{"integ": "mercurius"}]}
+    jobs = []
+    for name, hist, integs in histories():
+        for ig in integs:
+            for c0 in base[ig]:
+                if name.startswith("corrector") and (c0.get("coordinates") or c0.get("kernel")): continue
+                jobs.append((name, lambda cfg, name=name, hist=hist: history_case(name, hist, cfg), c0))
+    for ig in base:
+        for c0 in base[ig]:
+            for how in ("copy", "save+restore"):
+                jobs.append(("%s while unsynchronized" % how, lambda cfg, how=how: copy_case(cfg, how), c0))
+    for name, fn, c0 in jobs:
+        cfg = finish_cfg(rng, c0); cfg["nplanets"] = 3
+        json.dump({"history": name, "cfg": cfg}, open(cur, "w"))
+        signal.alarm(30)
+        try:
+            why = fn(cfg)
+        except TimeoutError:
+            why = "hang"
+        except Exception as e:
+            why = "exception: %r" % (e,)
+        signal.alarm(0)
+        rep["evaluations"] += 1; rep["keys"].append(str(("history", name, label(cfg))))
+        if why:
+            rep["fails"].append({"key": "history-vs-fresh:%s:%s" % (cfg["integ"], name[:50]), "why": "%s [%s]: %s" % (name, label(cfg), why),
+                                 "replay": {"check": "history", "name": name, "cfg": cfg}})
+    json.dump(rep, open(out, "w"), indent=1)
+    if os.path.exists(cur): os.remove(cur)
+    try: os.rmdir(TMP)
+    except OSError: pass
+
+
 def main():
     seed = int(sys.argv[1]); tier = sys.argv[2]; out = sys.argv[3]
     avx = len(sys.argv) > 4 and sys.argv[4] == "avx512"
@@ -896,6 +1073,11 @@ def replay(rep):
     if ch == "safe_vs_unsafe":
         err, tol, note = safe_vs_unsafe(cfg, r["nsteps"], r["keep"])
         return None if err <= tol else "differs by %.3g (tolerance %.3g)" % (err, tol)
+    if ch == "history":
+        for name, hist, integs in histories():
+            if name == r["name"]: return _safe(lambda c, _s: history_case(name, hist, c), cfg, None)
+        how = r["name"].split(" ")[0]
+        return _safe(lambda c, _s: copy_case(c, how), cfg, None)
     if ch == "corner":
         return _safe(lambda c, _s: corner_case(c), cfg, None)
     if ch == "reuse":
@@ -924,6 +1106,8 @@ def replay(rep):
 
 
 if __name__ == "__main__":
+    if sys.argv[1] == "--history":
+        history_main(sys.argv[2], int(sys.argv[3])); sys.exit(0)
     if sys.argv[1] == "--corners":
         corners(sys.argv[2], sys.argv[3] if len(sys.argv) > 3 else None, int(sys.argv[4]) if len(sys.argv) > 4 else None); sys.exit(0)
     if sys.argv[1] == "--replay":
